@@ -73,6 +73,8 @@ type Space struct {
 	// PanicIsViolation: a panic on the body's goroutine is a violation with this signature prefix
 	// ("" = a panic is a harness error).
 	PanicSig string
+	// StateCache enables pruning on the state keys the body publishes through Chooser.NextKey.
+	StateCache bool
 }
 
 // shardResult is what a worker reports for one job.
@@ -83,6 +85,7 @@ type shardResult struct {
 	MaxDepth  int              `json:"max_depth"`
 	MaxDev    int              `json:"max_dev"`
 	Trivial   int64            `json:"trivial"`
+	Pruned    int64            `json:"pruned"`
 	Keys      string           `json:"keys,omitempty"` // base64 of packed uint64 key hashes (non-trivial only)
 	Outcomes  map[string]int64 `json:"outcomes,omitempty"`
 	Stats     map[string]int64 `json:"stats,omitempty"`
@@ -131,6 +134,7 @@ type runner struct {
 	progress *os.File
 	setSeen  map[string]map[string]struct{}
 	nexec    int64
+	cache    map[uint64]int // state key -> largest remaining budget it was expanded with
 }
 
 func hashKey(s string) uint64 {
@@ -316,12 +320,60 @@ func (r *runner) subtree(prefix []PrefixEntry, maxExecs int64) (frontier [][]Pre
 		}
 		n++
 		r.record(c, cs)
-		ch := children(c, len(pre), r.bound)
+		ch := r.childrenCached(c, len(pre))
 		for i := len(ch) - 1; i >= 0; i-- {
 			stack = append(stack, ch[i])
 		}
 	}
 	return nil
+}
+
+// childrenCached is children() with state caching: a point whose state key was already expanded with at
+// least the remaining deviation budget contributes no alternatives, and neither does any later point of this
+// execution (the earlier visit explored every continuation from that state).
+func (r *runner) childrenCached(c *Chooser, from int) [][]PrefixEntry {
+	if r.cache == nil {
+		return children(c, from, r.bound)
+	}
+	var out [][]PrefixEntry
+	dev := 0
+	for i := 0; i < from && i < len(c.Points); i++ {
+		if !c.Points[i].Free && c.Points[i].Choice != 0 {
+			dev++
+		}
+	}
+	for i := from; i < len(c.Points); i++ {
+		p := c.Points[i]
+		if k := c.keys[i]; k != 0 {
+			remaining := 1 << 30
+			if r.bound >= 0 {
+				remaining = r.bound - dev
+			}
+			if seen, ok := r.cache[k]; ok && seen >= remaining {
+				r.res.Pruned++
+				break
+			}
+			r.cache[k] = remaining
+		}
+		cost := dev
+		if !p.Free {
+			cost++
+		}
+		if r.bound < 0 || cost <= r.bound {
+			for alt := 1; alt < p.N; alt++ {
+				pre := make([]PrefixEntry, i+1)
+				for j := 0; j < i; j++ {
+					pre[j] = PrefixEntry{C: c.Points[j].Choice, H: c.hashes[j]}
+				}
+				pre[i] = PrefixEntry{C: alt, H: c.hashes[i]}
+				out = append(out, pre)
+			}
+		}
+		if !p.Free && p.Choice != 0 {
+			dev++
+		}
+	}
+	return out
 }
 
 func (r *runner) finish() {
@@ -380,6 +432,7 @@ func runWorker(cfg *Config) {
 		progress, _ = os.OpenFile(p, os.O_CREATE|os.O_RDWR|os.O_TRUNC, 0o644)
 	}
 	setupDone := map[string]bool{}
+	caches := map[string]map[uint64]int{}
 	dec := json.NewDecoder(in)
 	for {
 		var j job
@@ -398,6 +451,12 @@ func runWorker(cfg *Config) {
 				setupDone[sp.Name] = true
 			}
 			r := &runner{space: sp, bound: j.Bound, res: res, keys: map[uint64]struct{}{}, progress: progress}
+			if sp.StateCache && os.Getenv("VERIF_NO_STATE_CACHE") == "" {
+				if caches[sp.Name] == nil {
+					caches[sp.Name] = map[uint64]int{}
+				}
+				r.cache = caches[sp.Name]
+			}
 			if j.Deadline != 0 {
 				r.deadline = time.Unix(0, j.Deadline)
 			}
